@@ -153,7 +153,8 @@ func RandomShapes(rng *rand.Rand, maxFrames int, lens []int) []Shape {
 // stream over the whole sequence) so that a lost, duplicated or moved region is
 // identified exactly; with ascii the bytes stay in 0x20..0x7e (valid UTF-8).
 // Frames are masked (random keys, sometimes all-zero) iff the RECEIVER is a
-// server.
+// server. With ascii set, data payloads are printable ASCII (valid text) while
+// ping and pong payloads are deliberately NOT valid UTF-8.
 func Build(shapes []Shape, receiver ref.Side, rng *rand.Rand, ascii bool) []ref.Frame {
 	frames := make([]ref.Frame, len(shapes))
 	ctr := rng.Intn(251)
@@ -161,7 +162,11 @@ func Build(shapes []Shape, receiver ref.Side, rng *rand.Rand, ascii bool) []ref.
 		p := make([]byte, s.Len)
 		for j := range p {
 			ctr++
-			if ascii {
+			if ascii && (s.Op == ref.OpPing || s.Op == ref.OpPong) {
+				// ping/pong payloads are arbitrary binary data: never valid UTF-8 on their own
+				// (stray continuation bytes, a three-byte lead, 0xff), also inside text messages
+				p[j] = []byte{0xe8, 0x80, 0xff, 0xbf, 0xc3}[ctr%5]
+			} else if ascii {
 				p[j] = byte(0x20 + ctr%95)
 			} else {
 				p[j] = byte(ctr*131 + ctr>>8)
